@@ -4,7 +4,7 @@ CFG = {
     "gens": ["C16", "C16path"],
     "search_timeout": 75,
     "rule": ("operation histories (insert/remove/get/contains_key/clear/iter/keys/len/is_empty, environment steps on the source "
-             "tree, Font::save into a sandbox with sentinels) on font.data / font.images, empty or loaded lazily from a generated tree; "
+             "tree, Font::save into a sandbox with sentinels whose target holds sentinels / is absent / is an empty directory) on font.data / font.images, empty or loaded lazily from a generated tree; "
              "non-trivial = the history contains an insert, a get, an iter or a save; distinct by input tokens. "
              "Path stream: every string over {a,b,.,/} up to length 6 (non-trivial: length >= 2) and pairs"),
     "exhaustive": {"quick": True, "thorough": True},
@@ -16,6 +16,7 @@ CFG = {
         "the harness' environment steps and the driver's flat tree are two implementations of the same small semantics (make prefixes directories, replace the node)",
     ],
     "assumptions": [
+        "the per-case trees live in a memory-backed directory (/dev/shm/verif-c16-<pid>) when there is one, else in the check's scratch directory; tmpfs and disk are assumed to behave alike for read/write/mkdir/symlink",
         "I/O errors other than not-found / is-a-directory / not-a-directory are not generated (the sandbox runs as root)",
         "after a refused save (some cells may stay lazy in hash order) no environment step is executed, so the partial forcing is unobservable",
         "for stores holding keys with `.`/`..` components or a trailing separator the tree left by a save is not predicted by the model (only the oracle judges it)",
